@@ -208,4 +208,6 @@ def run(ctx):
     ctx.hold('C07.present', construct(cs), 'no constant-key subscript on a record entry', cs.loc())
   from .c06 import roundtrip_guard
   roundtrip_guard(ctx, 'C07.defaults')
+  from .c06 import reference_eq
+  reference_eq(ctx, 'C07.defaults')
   signature_agreement(ctx, 'C07.defaults')
